@@ -30,6 +30,38 @@ pub fn var_name(id: i128) -> String {
     }
 }
 
+/// the kind of a fatal error (1 underflow, 2 stack overflow, 3 integer arithmetic, `other` otherwise).  `FatalError`
+/// offers only `Debug`; the error part of `StatefulError { state: .., error: .., .. }` is looked at by variant names,
+/// not by the layout of the variants (the state part may mention instruction names such as `Int(Add)`)
+pub fn fatal_kind(d: &str, other: i128) -> i128 {
+    // (the type name in the trailing `PhantomData<push::error::stateful::Fatal>` contains "error::" - a field is "error: ")
+    match d.rfind(" error: ") {
+        Some(i) => {
+            let e = &d[i..];
+            if e.contains("Underflow") {
+                1
+            } else if e.contains("Int(") || e.contains("IntInstructionError") {
+                3
+            } else if e.contains("Overflow") {
+                2
+            } else {
+                other
+            }
+        }
+        None => {
+            if d.contains("Overflow { stack_type") {
+                2
+            } else if d.contains("Underflow") {
+                1
+            } else if d.contains("Int(") {
+                3
+            } else {
+                other
+            }
+        }
+    }
+}
+
 /// inverse of `var_name`
 pub fn var_id(s: &str) -> Option<i128> {
     for r in 0..5i128 {
